@@ -166,6 +166,7 @@ structure SrcSafe (NP NS F : Int) (s : Src) : Prop where
   valid : 3 ≤ NP ∧ NP < NS
   lens : ∃ L : Nat, ∀ c ∈ s.chans, c.buf.length = L
   cfg : ∀ c ∈ s.chans, c.npre = NP ∧ c.nsamp = NS ∧ c.emt.nsamp = NS
+  firsts : ∀ c ∈ s.chans, c.buf = [] ∨ (0 ≤ c.first ∧ c.first + c.buf.length = F)
   emt : ∀ c ∈ s.chans, c.ts.edgeMulti = true →
     EmtSafe c ∧ c.emt.npre = NP ∧ (c.emt.next ≠ 0 → c.first + c.buf.length = F)
 
@@ -184,19 +185,27 @@ theorem opBlock_safe {NP NS F : Int} {s : Src} (hs : SrcSafe NP NS F s)
     (hzt : ∀ (j : Nat) (p : Int), -1 ≤ ztOf (zts[j]?.getD []) p ∧ ztOf (zts[j]?.getD []) p ≤ 1)
     (hdl : data.length = s.chans.length) (n : Nat) (hdn : ∀ d ∈ data, d.length = n)
     (hf0 : 0 ≤ first)
-    (hcont : first = F ∨ ∀ c ∈ s.chans, c.ts.edgeMulti = true → c.emt.next = 0) :
-    ∃ s' rs, opBlock s first t0 per signed data zts = some (s', rs) ∧ SrcSafe NP NS (first + n) s' := by
-  obtain ⟨hg, hbn, hv, ⟨L, hL⟩, hcfg, hemt⟩ := hs
+    (hcont : first = F ∨ ∀ c ∈ s.chans, c.buf = [] ∧ (c.ts.edgeMulti = true → c.emt.next = 0)) :
+    ∃ s' rs, opBlock s first t0 per signed data zts = some (s', rs) ∧ SrcSafe NP NS (first + n) s' ∧
+      s'.chans.length = s.chans.length := by
+  obtain ⟨hg, hbn, hv, ⟨L, hL⟩, hcfg, hfirsts, hemt⟩ := hs
   -- every channel on its own
   have PC : ∀ (j : Nat) (c : Chan) (d : List Nat), s.chans[j]? = some c → data[j]? = some d →
       ∃ c2 recs, triggerData (append c d first t0 per (signed[j]?.getD false)) (ztOf (zts[j]?.getD [])) = some (c2, recs) ∧
         (∀ r ∈ recs, FullG NP NS first L n r.frame) ∧
         c2.buf.length = L + n ∧ c2.first = first - L ∧ c2.npre = NP ∧ c2.nsamp = NS ∧ c2.emt.nsamp = NS ∧
-        c2.ts = c.ts ∧
+        c2.ts = c.ts ∧ 0 ≤ first - (L : Int) ∧
         (c.ts.edgeMulti = true → EmtSafe (trim c2) ∧ (trim c2).emt.npre = NP ∧ (trim c2).emt.next ≠ 0 ∧
           (trim c2).first + (trim c2).buf.length = first + n) := by
     intro j c d hc hd
     have hcm : c ∈ s.chans := List.mem_of_getElem? hc
+    have hfL : 0 ≤ first - (L : Int) := by
+      have hcl := hL c hcm
+      rcases hfirsts c hcm with hb | ⟨h1, h2⟩
+      · rw [hb] at hcl; simp at hcl; omega
+      · rcases hcont with h | h
+        · omega
+        · have := (h c hcm).1; rw [this] at hcl; simp at hcl; omega
     have hdm : d ∈ data := List.mem_of_getElem? hd
     have hdlen := hdn d hdm
     have hcl := hL c hcm
@@ -211,20 +220,20 @@ theorem opBlock_safe {NP NS F : Int} {s : Src} (hs : SrcSafe NP NS F s)
     have ca_ts : ca.ts = c.ts := by rw [← hca]; rfl
     by_cases hem : c.ts.edgeMulti = true
     · obtain ⟨hsafe, hnp, hF⟩ := hemt c hcm hem
-      have hc' : (c.emt.next = 0 ∧ 0 ≤ first) ∨ (c.emt.next ≠ 0 ∧ first = c.first + c.buf.length) := by
+      have hc' : (c.emt.next = 0 ∧ 0 ≤ first - c.buf.length) ∨ (c.emt.next ≠ 0 ∧ first = c.first + c.buf.length) := by
         by_cases hn0 : c.emt.next = 0
-        · exact Or.inl ⟨hn0, hf0⟩
+        · exact Or.inl ⟨hn0, by rw [hcl]; exact hfL⟩
         · right
           refine ⟨hn0, ?_⟩
           rcases hcont with h | h
           · rw [h]; exact (hF hn0).symm
-          · exact absurd (h c hcm hem) hn0
+          · exact absurd ((h c hcm).2 hem) hn0
       obtain ⟨c', recs, htd, hs', hnz, hend, hfr⟩ := emtSafe_step c (ztOf (zts[j]?.getD [])) (hzt j) hsafe d first t0 per
         (signed[j]?.getD false) hc'
       rw [hca] at htd
       obtain ⟨k1, k2, k3, k4, k5, k6, k7⟩ := triggerData_keep htd
       refine ⟨c', recs, htd, ?_, by rw [k1, ca_len], by rw [k2, ca_first], by rw [k3, ca_npre], by rw [k4, ca_nsamp],
-        by rw [k6, ca_en], by rw [k5, ca_ts], ?_⟩
+        by rw [k6, ca_en], by rw [k5, ca_ts], hfL, ?_⟩
       · intro r hr
         have := hfr r hr
         rw [hnp, hcl, hdlen] at this
@@ -241,7 +250,7 @@ theorem opBlock_safe {NP NS F : Int} {s : Src} (hs : SrcSafe NP NS F s)
       obtain ⟨k1, k2, k3, k4, k5, k6, k7⟩ := triggerData_keep htd
       have hrange := triggerData_nonEMT_range hval (by rw [ca_ts]; exact hem') htd
       refine ⟨c', recs, htd, ?_, by rw [k1, ca_len], by rw [k2, ca_first], by rw [k3, ca_npre], by rw [k4, ca_nsamp],
-        by rw [k6, ca_en], by rw [k5, ca_ts], fun h => absurd h hem⟩
+        by rw [k6, ca_en], by rw [k5, ca_ts], hfL, fun h => absurd h hem⟩
       intro r hr
       obtain ⟨h1, h2⟩ := hrange r hr
       rw [ca_first, ca_npre] at h1
@@ -257,7 +266,7 @@ theorem opBlock_safe {NP NS F : Int} {s : Src} (hs : SrcSafe NP NS F s)
   have P1 : ∀ (j : Nat) (c2 : Chan) (recs : List Rec), p1[j]? = some (c2, recs) →
       ∃ c, s.chans[j]? = some c ∧ (∀ r ∈ recs, FullG NP NS first L n r.frame) ∧
         c2.buf.length = L + n ∧ c2.first = first - L ∧ c2.npre = NP ∧ c2.nsamp = NS ∧ c2.emt.nsamp = NS ∧
-        c2.ts = c.ts ∧
+        c2.ts = c.ts ∧ 0 ≤ first - (L : Int) ∧
         (c.ts.edgeMulti = true → EmtSafe (trim c2) ∧ (trim c2).emt.npre = NP ∧ (trim c2).emt.next ≠ 0 ∧
           (trim c2).first + (trim c2).buf.length = first + n) := by
     intro j c2 recs hj
@@ -346,15 +355,16 @@ theorem opBlock_safe {NP NS F : Int} {s : Src} (hs : SrcSafe NP NS F s)
   · -- the invariant afterwards
     have hchan : ∀ c' ∈ p2.map (·.1), ∃ (j : Nat) (c2 : Chan) (recs : List Rec) (c : Chan), p1[j]? = some (c2, recs) ∧ c' = trim c2 ∧ s.chans[j]? = some c ∧
         c2.buf.length = L + n ∧ c2.npre = NP ∧ c2.nsamp = NS ∧ c2.emt.nsamp = NS ∧ c2.ts = c.ts ∧
+        c2.first = first - L ∧ 0 ≤ first - (L : Int) ∧
         (c.ts.edgeMulti = true → EmtSafe (trim c2) ∧ (trim c2).emt.npre = NP ∧ (trim c2).emt.next ≠ 0 ∧
           (trim c2).first + (trim c2).buf.length = first + n) := by
       intro c' hc'
       obtain ⟨pr, hpr, rfl⟩ := List.mem_map.mp hc'
       obtain ⟨j, hj⟩ := List.getElem?_of_mem hpr
       obtain ⟨c2, prim2, fl, sec, h1, _, h3, _⟩ := g2 j pr.1 pr.2 (by simpa using hj)
-      obtain ⟨c, hc, _, hlen, _, hnpre, hnsamp, hen, hts, hE⟩ := P1 j c2 prim2 h1
-      exact ⟨j, c2, prim2, c, h1, h3, hc, hlen, hnpre, hnsamp, hen, hts, hE⟩
-    refine ⟨?_, ?_, hv, ?_, ?_, ?_⟩
+      obtain ⟨c, hc, _, hlen, hfirst, hnpre, hnsamp, hen, hts, hfl, hE⟩ := P1 j c2 prim2 h1
+      exact ⟨j, c2, prim2, c, h1, h3, hc, hlen, hnpre, hnsamp, hen, hts, hfirst, hfl, hE⟩
+    refine ⟨⟨?_, ?_, hv, ?_, ?_, ?_, ?_⟩, by simp [hl2, hl1]⟩
     · rw [hb']
       exact ⟨hg.nodup, hg.count_eq, hg.inr⟩
     · rw [hb']
@@ -363,7 +373,7 @@ theorem opBlock_safe {NP NS F : Int} {s : Src} (hs : SrcSafe NP NS F s)
       exact hbn
     · refine ⟨if ((L + n : Nat) : Int) ≤ 2 * NS + 10 then L + n else (2 * NS + 10).toNat, ?_⟩
       intro c' hc'
-      obtain ⟨j, c2, recs, c, _, rfl, _, hlen, _, _, hen, _, _⟩ := hchan c' hc'
+      obtain ⟨j, c2, recs, c, _, rfl, _, hlen, _, _, hen, _, _, _, _⟩ := hchan c' hc'
       obtain ⟨_, _, tcase⟩ := trim_cases c2 (by rw [hen]; omega)
       rw [hen, hlen] at tcase
       rcases tcase with ⟨_, tb, tl⟩ | ⟨_, tb, tl⟩
@@ -371,13 +381,256 @@ theorem opBlock_safe {NP NS F : Int} {s : Src} (hs : SrcSafe NP NS F s)
       · rw [if_neg (by omega)]
         omega
     · intro c' hc'
-      obtain ⟨j, c2, recs, c, _, rfl, _, _, hnpre, hnsamp, hen, _, _⟩ := hchan c' hc'
+      obtain ⟨j, c2, recs, c, _, rfl, _, _, hnpre, hnsamp, hen, _, _, _, _⟩ := hchan c' hc'
       obtain ⟨t1, t2, t3, _⟩ := trim_keep c2
       exact ⟨by rw [t1, hnpre], by rw [t2, hnsamp], by rw [t3, hen]⟩
+    · intro c' hc'
+      obtain ⟨j, c2, recs, c, _, rfl, _, hlen, _, _, hen, _, hfirst, hfl, _⟩ := hchan c' hc'
+      obtain ⟨_, _, tcase⟩ := trim_cases c2 (by rw [hen]; omega)
+      rw [hen, hlen, hfirst] at tcase
+      right
+      rcases tcase with ⟨tf, tb, tl⟩ | ⟨tf, tb, tl⟩
+      · rw [tf, tb]; push_cast; constructor <;> omega
+      · rw [tf]; push_cast at tb tl ⊢; constructor <;> omega
     · intro c' hc' hem
-      obtain ⟨j, c2, recs, c, _, rfl, _, _, _, _, _, hts, hE⟩ := hchan c' hc'
+      obtain ⟨j, c2, recs, c, _, rfl, _, _, _, _, _, hts, _, _, hE⟩ := hchan c' hc'
       rw [(trim_keep c2).2.2.2, hts] at hem
       obtain ⟨e1, e2, e3, e4⟩ := hE hem
       exact ⟨e1, e2, fun _ => e4⟩
+
+/-! ### control requests keep the invariant -/
+
+/-- what the invariant says about one channel -/
+structure ChanSafe (NP NS F : Int) (L : Nat) (c : Chan) : Prop where
+  len : c.buf.length = L
+  cfg : c.npre = NP ∧ c.nsamp = NS ∧ c.emt.nsamp = NS
+  firsts : c.buf = [] ∨ (0 ≤ c.first ∧ c.first + c.buf.length = F)
+  emt : c.ts.edgeMulti = true → EmtSafe c ∧ c.emt.npre = NP ∧ (c.emt.next ≠ 0 → c.first + c.buf.length = F)
+
+theorem srcSafe_iff {NP NS F : Int} {s : Src} :
+    SrcSafe NP NS F s ↔ (C09.Good s.broker ∧ s.broker.n = s.chans.length ∧ (3 ≤ NP ∧ NP < NS) ∧
+      ∃ L, ∀ c ∈ s.chans, ChanSafe NP NS F L c) := by
+  constructor
+  · rintro ⟨h1, h2, h3, ⟨L, h4⟩, h5, h6, h7⟩
+    exact ⟨h1, h2, h3, L, fun c hc => ⟨h4 c hc, h5 c hc, h6 c hc, h7 c hc⟩⟩
+  · rintro ⟨h1, h2, h3, L, h⟩
+    exact ⟨h1, h2, h3, ⟨L, fun c hc => (h c hc).len⟩, fun c hc => (h c hc).cfg, fun c hc => (h c hc).firsts,
+      fun c hc => (h c hc).emt⟩
+
+/-- `ConfigureTrigger` on one channel keeps it safe: an accepted edge-multi request has passed the
+validity rule, and the search restarts (`next = 0`) -/
+theorem configureTrigger_safe {NP NS F : Int} {L : Nat} (hv : 3 ≤ NP ∧ NP < NS) {c : Chan} (ts : TS) (emt : EMT)
+    (h : ChanSafe NP NS F L c) : ChanSafe NP NS F L (configureTrigger c ts emt).1 := by
+  obtain ⟨hl, ⟨h1, h2, h3⟩, hf, he⟩ := h
+  unfold configureTrigger
+  simp only
+  split
+  · exact ⟨hl, ⟨h1, h2, h3⟩, hf, he⟩
+  · rename_i hguard
+    refine ⟨hl, ⟨h1, h2, by simp [EMT.reset, h2]⟩, hf, ?_⟩
+    intro hem
+    simp only at hem
+    have hvalid : ({ emt with nsamp := c.nsamp, npre := c.npre } : EMT).valid = true := by
+      simp only [hem, Bool.true_and, Bool.not_eq_true', Bool.not_eq_false] at hguard
+      exact hguard
+    unfold EMT.valid at hvalid
+    simp only [Bool.and_eq_true, Bool.not_eq_true', Bool.and_eq_false_iff, decide_eq_false_iff_not, decide_eq_true_eq] at hvalid
+    obtain ⟨⟨hz1, hz2⟩, _⟩ := hvalid
+    refine ⟨⟨by simp [EMT.reset, h1]; omega, by simp [EMT.reset, h1, h2]; omega, ?_, hem, ?_, Or.inl (by simp [EMT.reset])⟩,
+      by simp [EMT.reset, h1], fun hn => absurd (by simp [EMT.reset]) hn⟩
+    · intro hzt
+      simp only [EMT.reset] at hzt ⊢
+      rcases hz1 with hz1 | hz1
+      · rw [hz1] at hzt; cases hzt
+      · rcases hz2 with hz2 | hz2
+        · rw [hz2] at hzt; cases hzt
+        · omega
+    · rcases hf with hf | hf
+      · exact Or.inr hf
+      · exact Or.inl hf.1
+
+theorem modifyChan_mem {cs : List Chan} {i : Nat} {f : Chan → Chan} {c' : Chan} (h : c' ∈ modifyChan cs i f) :
+    ∃ c ∈ cs, c' = c ∨ c' = f c := by
+  unfold modifyChan at h
+  obtain ⟨j, hj⟩ := List.getElem?_of_mem h
+  simp only [List.getElem?_mapIdx] at hj
+  cases hcs : cs[j]? with
+  | none => simp [hcs] at hj
+  | some c =>
+    simp only [hcs, Option.map_some, Option.some.injEq] at hj
+    refine ⟨c, List.mem_of_getElem? hcs, ?_⟩
+    split at hj
+    · exact Or.inr hj.symm
+    · exact Or.inl hj.symm
+
+theorem changeTrig_go_safe (ts : TS) (emt : EMT) (Q : Chan → Prop)
+    (hQ : ∀ c, Q c → Q (configureTrigger c ts emt).1) :
+    ∀ (idxs : List Int) (cs : List Chan), (∀ i ∈ idxs, 0 ≤ i ∧ i < (cs.length : Int)) → (∀ c ∈ cs, Q c) →
+      ∃ cs' e, changeTrig.go ts emt cs idxs = some (cs', e) ∧ cs'.length = cs.length ∧ ∀ c ∈ cs', Q c
+  | [], cs, _, hq => ⟨cs, false, by simp [changeTrig.go], rfl, hq⟩
+  | i :: rest, cs, hi, hq => by
+    obtain ⟨hi0, hi1⟩ := hi i (by simp)
+    have hlt : i.toNat < cs.length := by omega
+    have hget : cs[i.toNat]? = some cs[i.toNat] := List.getElem?_eq_getElem hlt
+    have hq' : ∀ c ∈ modifyChan cs i.toNat (fun _ => (configureTrigger cs[i.toNat] ts emt).1), Q c := by
+      intro c' hc'
+      obtain ⟨c, hc, h | h⟩ := modifyChan_mem hc'
+      · rw [h]; exact hq c hc
+      · rw [h]; exact hQ _ (hq _ (List.getElem_mem hlt))
+    have hlen' : (modifyChan cs i.toNat (fun _ => (configureTrigger cs[i.toNat] ts emt).1)).length = cs.length := by
+      simp [modifyChan]
+    unfold changeTrig.go
+    have hneg : ¬ i < 0 := by omega
+    simp only [hneg, if_false, hget]
+    split
+    · exact ⟨_, true, rfl, hlen', hq'⟩
+    · obtain ⟨cs', e, h1, h2, h3⟩ := changeTrig_go_safe ts emt Q hQ rest _
+        (by intro k hk; have := hi k (List.mem_cons_of_mem _ hk); rw [hlen']; exact this) hq'
+      exact ⟨cs', e, h1, by rw [h2, hlen'], h3⟩
+
+theorem changeTrig_safe (ts : TS) (emt : EMT) (Q : Chan → Prop)
+    (hQ : ∀ c, Q c → Q (configureTrigger c ts emt).1) (idxs : List Int) (cs : List Chan) (hq : ∀ c ∈ cs, Q c) :
+    ∃ cs' e, changeTrig cs idxs ts emt = some (cs', e) ∧ cs'.length = cs.length ∧ ∀ c ∈ cs', Q c := by
+  unfold changeTrig
+  split
+  · exact ⟨cs, true, rfl, rfl, hq⟩
+  · split
+    · exact ⟨cs, true, rfl, rfl, hq⟩
+    · rename_i hany
+      have hidx : ∀ i ∈ idxs, 0 ≤ i ∧ i < (cs.length : Int) := by
+        intro i hi
+        simp only [List.any_eq_true, Bool.or_eq_true, decide_eq_true_eq, not_exists, not_and, not_or] at hany
+        have := hany i hi
+        omega
+      exact changeTrig_go_safe ts emt Q hQ idxs cs hidx hq
+
+/-- a `ConfigureTriggers` request never panics and keeps the invariant -/
+theorem opTrig_safe {NP NS F : Int} {s : Src} (hs : SrcSafe NP NS F s) (r : TrigReq) :
+    ∃ s' e, opTrig s r = some (s', e) ∧ SrcSafe NP NS F s' ∧ s'.chans.length = s.chans.length := by
+  obtain ⟨hg, hbn, hv, L, hch⟩ := srcSafe_iff.mp hs
+  unfold opTrig
+  simp only
+  cases hemt : (if r.ts.edgeMulti = true then toEMT r.compat else some {}) with
+  | none => exact ⟨s, true, rfl, hs, rfl⟩
+  | some emt =>
+    simp only
+    obtain ⟨cs', e, h1, h2, h3⟩ := changeTrig_safe r.ts emt (ChanSafe NP NS F L)
+      (fun c hc => configureTrigger_safe hv r.ts emt hc) r.chans s.chans hch
+    rw [h1]
+    exact ⟨_, e, rfl, srcSafe_iff.mpr ⟨hg, by rw [hbn]; exact h2.symm, hv, L, h3⟩, h2⟩
+
+/-- `ConfigurePulseLengths` on one channel (accepted request, valid lengths) -/
+theorem configureLengths_safe {NP NS F : Int} {L : Nat} {c : Chan} (nsamp npre : Int) (hv : 3 ≤ npre ∧ npre < nsamp)
+    (hchk : checkLengths c nsamp npre = false)
+    (h : ChanSafe NP NS F L c) : ChanSafe npre nsamp F L (configureLengths c nsamp npre).1 := by
+  obtain ⟨hl, ⟨h1, h2, h3⟩, hf, he⟩ := h
+  unfold configureLengths
+  simp only [hchk, Bool.false_eq_true, if_false]
+  refine ⟨hl, ⟨rfl, rfl, rfl⟩, hf, ?_⟩
+  intro hem
+  simp only at hem
+  unfold checkLengths at hchk
+  simp only [hem, Bool.true_and, Bool.not_eq_false'] at hchk
+  unfold EMT.valid at hchk
+  simp only [Bool.and_eq_true, Bool.not_eq_true', Bool.and_eq_false_iff, decide_eq_false_iff_not, decide_eq_true_eq] at hchk
+  obtain ⟨⟨hz1, hz2⟩, _⟩ := hchk
+  refine ⟨⟨by simp [EMT.reset]; omega, by simp [EMT.reset]; omega, ?_, hem, ?_, Or.inl (by simp [EMT.reset])⟩,
+    by simp [EMT.reset], fun hn => absurd (by simp [EMT.reset]) hn⟩
+  · intro hzt
+    simp only [EMT.reset] at hzt ⊢
+    rcases hz1 with hz1 | hz1
+    · rw [hz1] at hzt; cases hzt
+    · rcases hz2 with hz2 | hz2
+      · rw [hz2] at hzt; cases hzt
+      · omega
+  · rcases hf with hf | hf
+    · exact Or.inr hf
+    · exact Or.inl hf.1
+
+/-- a `ConfigurePulseLengths` request keeps the invariant (possibly with new lengths) -/
+theorem opLen_safe {NP NS F : Int} {s : Src} (hs : SrcSafe NP NS F s) (nsamp npre : Int) :
+    ∃ NP' NS', SrcSafe NP' NS' F (opLen s nsamp npre).1 ∧ (opLen s nsamp npre).1.chans.length = s.chans.length := by
+  obtain ⟨hg, hbn, hv, L, hch⟩ := srcSafe_iff.mp hs
+  unfold opLen
+  split
+  · exact ⟨NP, NS, hs, rfl⟩
+  · split
+    · exact ⟨NP, NS, hs, rfl⟩
+    · split
+      · exact ⟨NP, NS, hs, rfl⟩
+      · split
+        · exact ⟨NP, NS, hs, rfl⟩
+        · rename_i _ _ hvalid hany
+          refine ⟨npre, nsamp, srcSafe_iff.mpr ⟨hg, by simpa using hbn, by omega, L, ?_⟩, by simp⟩
+          intro c' hc'
+          simp only [List.mem_map] at hc'
+          obtain ⟨c, hc, rfl⟩ := hc'
+          have hchk : checkLengths c nsamp npre = false := by
+            simp only [List.any_eq_true, not_exists, not_and, Bool.not_eq_true] at hany
+            exact hany c hc
+          exact configureLengths_safe nsamp npre (by omega) hchk (hch c hc)
+
+/-! ### any sequence of operations -/
+
+/-- the blocks of `ops` are what a data source delivers: one segment per channel, all of one length,
+consecutive in frame number from `F` on (frame numbers ≥ 0); control requests are arbitrary -/
+def OpsOK (nch : Nat) : Int → List Op → Prop
+  | _, [] => True
+  | F, .block first _ _ _ data :: os =>
+    data.length = nch ∧ ∃ n : Nat, (∀ d ∈ data, d.length = n) ∧ 0 ≤ first ∧ first = F ∧ OpsOK nch (F + n) os
+  | F, _ :: os => OpsOK nch F os
+
+/-- **no operation sequence crashes** -/
+theorem runOps_safe (zts : List (List (Int × Int)))
+    (hzt : ∀ (j : Nat) (p : Int), -1 ≤ ztOf (zts[j]?.getD []) p ∧ ztOf (zts[j]?.getD []) p ≤ 1) (nch : Nat) :
+    ∀ (ops : List Op) (F : Int) (s : Src) (NP NS : Int), SrcSafe NP NS F s → s.chans.length = nch →
+      OpsOK nch F ops → ∃ outs, runOps zts s ops = some outs
+  | [], _, _, _, _, _, _, _ => ⟨[], rfl⟩
+  | o :: os, F, s, NP, NS, hs, hn, hok => by
+    cases o with
+    | block first t0 per signed data =>
+      obtain ⟨hdl, n, hdn, hf0, hfF, hrest⟩ := hok
+      obtain ⟨s', rs, hob, hs', hn'⟩ := opBlock_safe hs first t0 per signed data zts hzt (by rw [hdl, hn]) n hdn hf0
+        (Or.inl hfF)
+      obtain ⟨outs, ho⟩ := runOps_safe zts hzt nch os (F + n) s' NP NS (by rw [← hfF]; exact hs') (by rw [hn', hn]) hrest
+      exact ⟨.recs rs :: outs, by simp [runOps, stepOp, bind, pure, hob, ho]⟩
+    | trig r =>
+      obtain ⟨s', e, h1, hs', hn'⟩ := opTrig_safe hs r
+      obtain ⟨outs, ho⟩ := runOps_safe zts hzt nch os F s' NP NS hs' (by rw [hn', hn]) hok
+      exact ⟨.err e :: outs, by simp [runOps, stepOp, bind, pure, h1, ho]⟩
+    | len a b =>
+      obtain ⟨NP', NS', hs', hn'⟩ := opLen_safe hs a b
+      obtain ⟨outs, ho⟩ := runOps_safe zts hzt nch os F _ NP' NS' hs' (by rw [hn', hn]) hok
+      exact ⟨.err (opLen s a b).2 :: outs, by simp [runOps, stepOp, bind, pure, ho]⟩
+    | gadd ps =>
+      obtain ⟨hg, hbn, hv, L, hch⟩ := srcSafe_iff.mp hs
+      obtain ⟨g1, g2, _⟩ := C09.applyAll_add_spec s.broker hg ps
+      obtain ⟨outs, ho⟩ := runOps_safe zts hzt nch os F { s with broker := C09.applyAll C09.add s.broker ps } NP NS
+        (srcSafe_iff.mpr ⟨g1, by rw [g2]; exact hbn, hv, L, hch⟩) hn hok
+      exact ⟨.err false :: outs, by simp [runOps, stepOp, bind, pure, ho]⟩
+    | gdel ps =>
+      obtain ⟨hg, hbn, hv, L, hch⟩ := srcSafe_iff.mp hs
+      obtain ⟨g1, g2, _⟩ := C09.applyAll_del_spec s.broker hg ps
+      obtain ⟨outs, ho⟩ := runOps_safe zts hzt nch os F { s with broker := C09.applyAll C09.del s.broker ps } NP NS
+        (srcSafe_iff.mpr ⟨g1, by rw [g2]; exact hbn, hv, L, hch⟩) hn hok
+      exact ⟨.err false :: outs, by simp [runOps, stepOp, bind, pure, ho]⟩
+    | gstop =>
+      obtain ⟨hg, hbn, hv, L, hch⟩ := srcSafe_iff.mp hs
+      obtain ⟨g1, _, g2⟩ := C09.stop_spec s.broker
+      obtain ⟨outs, ho⟩ := runOps_safe zts hzt nch os F { s with broker := C09.stopAll s.broker } NP NS
+        (srcSafe_iff.mpr ⟨g1, by rw [g2]; exact hbn, hv, L, hch⟩) hn hok
+      exact ⟨.err false :: outs, by simp [runOps, stepOp, bind, pure, ho]⟩
+
+/-- the source as `PrepareRun` leaves it satisfies the invariant (for any first frame) -/
+theorem prepare_safe (nch : Nat) (npre nsamp : Int) (saved : List (Nat × TS)) (hv : 3 ≤ npre ∧ npre < nsamp) (F : Int) :
+    SrcSafe npre nsamp F (prepare nch npre nsamp saved) ∧ (prepare nch npre nsamp saved).chans.length = nch := by
+  refine ⟨srcSafe_iff.mpr ⟨C09.good_new nch, by simp [prepare, C09.Broker.new], hv, 0, ?_⟩, by simp [prepare]⟩
+  intro c hc
+  simp only [prepare, List.mem_map, List.mem_range] at hc
+  obtain ⟨i, _, rfl⟩ := hc
+  refine ⟨rfl, ⟨rfl, rfl, rfl⟩, Or.inl rfl, ?_⟩
+  intro hem
+  simp only at hem
+  split at hem <;> simp at hem
 
 end DastardV.Pipe
